@@ -84,6 +84,9 @@ class Flow:
         init = ['init', '-r', self.repo, '-p', 'pw-owner', '-o', os.path.join(self.scratch, 'key-owner'), '-q', '--ignore-config',
                 '--chunking.min-length', mn, '--chunking.max-length', mx, '--encryption.cipher.name', cipher,
                 '--encryption.kdf.n', 4, '--hashing.name', r.choice(['blake2b', 'sha2', 'sha3'])]
+        if r.random() < 0.4:
+            Path(self.scratch, 'key-owner').write_bytes(b'{"old": "' + b'y' * 2500 + b'"}\n')
+            f.setdefault('key_files_overwritten', []).append('owner')
         rc, _, err = self.run(init, what='init')
         if rc != 0:
             return f
@@ -121,6 +124,10 @@ class Flow:
             else:
                 argv += ['--clone', '-K', pu['keyfile'], '-p', pu['password']]
                 pw = pu['password']
+            if r.random() < 0.5:
+                # the output file already exists and is longer than a key (an older key with costlier parameters, anything)
+                Path(keyfile).write_bytes(b'{"old": "' + b'x' * r.choice([700, 3000]) + b'"}\n')
+                f.setdefault('key_files_overwritten', []).append(name)
             before_objs = data_objects(self.repo)
             rc, _, err = self.run(argv, what=f'add-key {mode}')
             if rc != 0 or not os.path.exists(keyfile):
